@@ -19,6 +19,7 @@ REPO = os.environ.get("VERIF_REPO", "/repo")
 COQ = os.path.join(VERIF, "coq")
 OCAML = os.path.join(VERIF, "ocaml")
 BUILD = os.path.join(VERIF, "build")
+OUT = os.environ.get("VERIF_OUT", VERIF)   # evidence/ and replays/ go here (self-test runs against mutants use a scratch dir)
 GOENV = dict(os.environ, GOFLAGS="-mod=mod", GOPROXY="off", GOSUMDB="off", GOTOOLCHAIN="local", CGO_ENABLED=os.environ.get("CGO_ENABLED", "1"))
 HOOK_TAG = "verif"
 
@@ -187,8 +188,8 @@ def run_check(prop, tier):
     t0 = time.time()
     seed = int(os.environ.get("VERIF_SEED", "1") or "1")
     tier = os.environ.get("VERIF_TIER", tier) or tier
-    os.makedirs(os.path.join(VERIF, "evidence"), exist_ok=True)
-    os.makedirs(os.path.join(VERIF, "replays"), exist_ok=True)
+    os.makedirs(os.path.join(OUT, "evidence"), exist_ok=True)
+    os.makedirs(os.path.join(OUT, "replays"), exist_ok=True)
     scratch = scratch_dir()
     lines, violations, broken = [], [], []
     stats = {"evaluations": 0, "distinct_nontrivial": 0, "samples": [], "distribution": {}, "mismatches": [], "rule": ""}
@@ -217,7 +218,7 @@ def run_check(prop, tier):
             run_tier = tier if not broken else "thorough"   # a broken obligation escalates the search for a failing input
             statf = os.path.join(scratch, prop + ".json")
             p = sh([exe, "-prop", prop, "-tier", run_tier, "-seed", str(seed), "-model", os.path.join(OCAML, "xmodel"),
-                    "-out", statf, "-replays", os.path.join(VERIF, "replays")], cwd=scratch, env=GOENV, check=False,
+                    "-out", statf, "-replays", os.path.join(OUT, "replays")], cwd=scratch, env=GOENV, check=False,
                    timeout=7200)
             if os.path.exists(statf):
                 stats = json.load(open(statf))
@@ -264,7 +265,7 @@ def run_check(prop, tier):
         print("  " + what[:500])
         exit_code = 1
     if broken and not violations:
-        rp = os.path.join(VERIF, "replays", "%s-broken-obligation.json" % prop)
+        rp = os.path.join(OUT, "replays", "%s-broken-obligation.json" % prop)
         json.dump({"property": prop, "broken": [{"what": a, "detail": b} for a, b in broken],
                    "note": "a proof obligation or the model/code tie no longer checks; the thorough search found no failing input"}, open(rp, "w"), indent=1)
         print("VIOLATION property=%s replay=%s no-failing-input-found" % (prop, rp))
@@ -293,7 +294,7 @@ def run_check(prop, tier):
         "wall_s": round(time.time() - t0, 2),
         "violations": len(violations) + (1 if broken and not violations else 0),
     }
-    json.dump(ev, open(os.path.join(VERIF, "evidence", prop + ".json"), "w"), indent=1)
+    json.dump(ev, open(os.path.join(OUT, "evidence", prop + ".json"), "w"), indent=1)
     shutil.rmtree(scratch, ignore_errors=True)
     print("%s %s: obligations %d/%d, evaluations %d (distinct non-trivial %d), violations %d, %.1fs" % (
         prop, tier, au["discharged"], au["obligations"], stats.get("evaluations", 0), stats.get("distinct_nontrivial", 0), ev["violations"], ev["wall_s"]))
